@@ -97,9 +97,40 @@ type Session struct {
 	// same pointer - the same circuit value. The garbler's randomness source is
 	// then a scheduling point (a read from the OS takes time). ParDelay: how long
 	// after the first session the second one starts.
-	Par            *Session
-	ParDelay       time.Duration
-	RandStallOneIn int // with Par: one read in so many of the shared randomness source stalls
+	// Prelude, if set, is a session (Circ, X, Y) that the same two processes run FIRST, over a
+	// connection of its own that is reset at byte PreludeCut of direction PreludeDir (0 = garbler
+	// to evaluator): it fails at both ends (or completes, if the stream is shorter), both give the
+	// connection up, and then the session proper runs over a fresh connection with the same
+	// env.Config and circuit value and - for OT kinds that can be initialised again - the same OT
+	// objects. Only the session proper is judged: fail, then carry on.
+	Prelude    *Session
+	PreludeDir int
+	PreludeCut uint64
+	// PreludeRandFail > 0: the prelude fails differently - its connection is sound, but the
+	// garbler's randomness source returns an error after that many bytes (once; the source works
+	// again for the sessions that follow)
+	PreludeRandFail int
+	Par             *Session
+	ParDelay        time.Duration
+	RandStallOneIn  int // with Par: one read in so many of the shared randomness source stalls
+}
+
+// failAfter is a randomness source that delivers left bytes and then returns an error.
+type failAfter struct {
+	r    io.Reader
+	left int
+}
+
+func (f *failAfter) Read(p []byte) (int, error) {
+	if f.left <= 0 {
+		return 0, fmt.Errorf("simrand: entropy source failed")
+	}
+	if len(p) > f.left {
+		p = p[:f.left]
+	}
+	n, err := f.r.Read(p)
+	f.left -= n
+	return n, err
 }
 
 // Out is what a session produced.
@@ -114,6 +145,9 @@ type Out struct {
 	Aborted      bool // the session stalled and was aborted
 	Next         *Out // the second session, if any (GE/EG: its own bytes only)
 	Par          *Out // the session served at the same time, if any
+	// the aborted first session, if any: what the parties returned
+	PreGErr, PreEErr   error
+	PreGDone, PreEDone bool
 }
 
 // Run executes one session under the simulator.
@@ -164,22 +198,60 @@ func Run(t *rt.Tape, s Session) *Out {
 		otEP = NewOT(s.OT, simrand.Stream("E-ot-par"))
 		cfg.Rand = &simrand.Yielding{R: cfg.Rand, StallOneIn: s.RandStallOneIn}
 	}
+	var eaP, ebP *simnet.Endpoint
+	if s.Prelude != nil {
+		pp := s.Pipe
+		pp.Record = false
+		f := simnet.Fault{Kind: simnet.FaultReset, Off: s.PreludeCut}
+		if s.PreludeRandFail > 0 {
+			// no transport fault
+		} else if s.PreludeDir == 0 {
+			pp.AB.Faults = []simnet.Fault{f}
+		} else {
+			pp.BA.Faults = []simnet.Fault{f}
+		}
+		eaP, ebP = simnet.Pipe("G0", "E0", pp)
+	}
+	reusable := s.OT == OTCO || s.OT == OTRSA1024 || s.OT == OTRSA2048
 	var ge1, eg1 int // bytes of the first session on a shared connection
 	o.RR = rt.Run(rt.Config{Trace: s.Trace, NoProgress: core.NoProgressDefault, OnStall: onStall, OnCrash: func(party string, _ *rt.Task) {
 		// a crashed process loses its sockets
 		if party == "G" {
 			abort(ea, ea2)
+			if eaP != nil {
+				eaP.Abort()
+			}
 			if ea3 != nil {
 				ea3.Abort()
 			}
 		} else if party == "E" {
 			abort(eb, eb2)
+			if ebP != nil {
+				ebP.Abort()
+			}
 			if eb3 != nil {
 				eb3.Abort()
 			}
 		}
 	}}, t, func() {
 		rt.GoParty("G", "garbler", func() {
+			if s.Prelude != nil {
+				connP := p2p.NewConn(eaP)
+				cfgP := cfg
+				if s.PreludeRandFail > 0 {
+					cfgP = &env.Config{Rand: &failAfter{r: cfg.Rand, left: s.PreludeRandFail}}
+				}
+				_, o.PreGErr = circuit.Garbler(cfgP, connP, spy, s.Prelude.Circ, s.Prelude.X, false)
+				o.PreGDone = true
+				if o.PreGErr == nil {
+					connP.Close()
+				}
+				eaP.Abort()
+				spy.Wires = nil
+				if !reusable {
+					spy.OT = NewOT(s.OT, simrand.Stream("G-ot-again"))
+				}
+			}
 			conn := p2p.NewConn(ea)
 			o.GOut, o.GErr = circuit.Garbler(cfg, conn, spy, s.Circ, s.X, false)
 			o.GDone = true
@@ -236,6 +308,18 @@ func Run(t *rt.Tape, s Session) *Out {
 			})
 		}
 		rt.GoParty("E", "evaluator", func() {
+			if s.Prelude != nil {
+				connP := p2p.NewConn(ebP)
+				_, o.PreEErr = circuit.Evaluator(connP, otE, s.Prelude.Circ, s.Prelude.Y, false)
+				o.PreEDone = true
+				if o.PreEErr == nil {
+					connP.Close()
+				}
+				ebP.Abort()
+				if !reusable {
+					otE = NewOT(s.OT, simrand.Stream("E-ot-again"))
+				}
+			}
 			conn := p2p.NewConn(eb)
 			o.EOut, o.EErr = circuit.Evaluator(conn, otE, s.Circ, s.Y, false)
 			o.EDone = true
@@ -409,6 +493,29 @@ func (w *C02) Run(t *rt.Tape, trace bool) *core.Result {
 		second = fmt.Sprintf("session served at the same time (same circuit value: %v, starts %v later): %s x=%s y=%s", circ3 == circ, sess.ParDelay, gen.Describe(circ3), in3[0].Text(16), in3[1].Text(16))
 		res.Reach["concurrent-sessions.same-circuit-value="+fmt.Sprint(circ3 == circ)]++
 	}
+	// One case in six (same restriction): fail, then carry on. The two processes first run a
+	// session whose connection is reset at a tape-chosen byte; both ends give it up; then the
+	// session of the case runs over a fresh connection - same env.Config, same circuit value (two
+	// times in three) and, for CO and RSA, the same OT objects. Only that session is judged.
+	if !small && sess.Next == nil && res.Reach["circuit.compiled-from-mpcl"] == 0 && kind != OTRSA2048 && t.Choose(rt.SGen, 6-3*min(1, len(second))) == 0 {
+		pc := circ
+		if t.Choose(rt.SGen, 3) == 0 {
+			pc = gen.Circuit(t, gen.CircuitOpts{ZeroWidth: true})
+		}
+		pin := gen.Inputs(t, pc)
+		sess.Prelude = &Session{Circ: pc, X: pin[0], Y: pin[1]}
+		sess.PreludeDir = t.Choose(rt.SGen, 2)
+		sess.PreludeCut = uint64(t.Choose(rt.SGen, 1<<uint(2+t.Choose(rt.SGen, 15))))
+		if k := t.Choose(rt.SGen, 3); k == 0 || k == 1 && sess.Par != nil {
+			// the other way to fail: the garbler runs out of randomness in the middle of garbling
+			sess.PreludeRandFail = 1 + t.Choose(rt.SGen, 16*(pc.Inputs.Size()+4))
+		}
+		if sess.Par != nil {
+			second += "; "
+		}
+		second += fmt.Sprintf("preceded by a session (%s) that fails: connection reset at byte %d of direction %d, or (if > 0) garbler randomness failing after %d bytes", gen.Describe(pc), sess.PreludeCut, sess.PreludeDir, sess.PreludeRandFail)
+		res.Reach["fail-then-carry-on"]++
+	}
 	res.Sample = Sample{Circuit: gen.Describe(circ), X: in[0].Text(16), Y: in[1].Text(16), OT: OTNames[kind], GE: core.DescribeDir(pipe.AB), EG: core.DescribeDir(pipe.BA), Second: second}
 	res.Class = "ot=" + OTNames[kind]
 	want := gen.Eval(circ, in)
@@ -435,6 +542,21 @@ func (w *C02) Run(t *rt.Tape, trace bool) *core.Result {
 	fail := func(clause, detail string) *core.Result {
 		res.Fail = &core.Failure{Clause: clause, Detail: detail}
 		return res
+	}
+	if sess.Prelude != nil {
+		switch {
+		case o.PreGDone && o.PreGErr != nil || o.PreEDone && o.PreEErr != nil:
+			res.Reach["fail-then-carry-on.first-session-failed"]++
+		case o.PreGDone && o.PreEDone:
+			res.Reach["fail-then-carry-on.first-session-completed"]++
+		}
+		if len(o.RR.Crashed) > 0 && (!o.PreGDone || !o.PreEDone) {
+			// a crash inside the faulted session is not this property's business (C16 speaks about
+			// corrupted sessions); a crashed process would not carry on
+			res.Discard = true
+			res.Reach["discard: a party crashed inside the session whose connection was reset"]++
+			return res
+		}
 	}
 	if len(o.RR.Crashed) > 0 {
 		return fail("panic", core.CrashDetail(o.RR))
